@@ -188,6 +188,13 @@ def replay(ctx):
     seen = []
     A.judge(ctx, p, lambda what, rep, cls: seen.append((cls, what)))
     print(spec.text())
+    if str(r.get('kind', '')).startswith('ir-') and p.unit is not None:
+        import c09_ir
+        ctx.quick = False
+        before = len(ctx.violations)
+        c09_ir.run_units(ctx, [p], 1)
+        for v in ctx.violations[before:]:
+            seen.append(('ir', v['what']))
     for cls, what in seen:
         print('STILL FAILS [%s]: %s' % (cls, what[:500]))
     if not seen:
@@ -220,8 +227,7 @@ def run(ctx):
     ctx.extra['open_theorems'] = [
         'validate_sound (validated generated program = codec model for all values and buffer sizes): no validator with a soundness '
         'proof exists; generated functions are executed as IR terms on sampled values only',
-        'semantic tie of the looping helpers (append_bytes/read_bytes/nnbi) is by vm_compute runs, proved only for the straight-line '
-        'bounds-check helpers (CGen/HelpersIrTie.v)',
+        'the generated per-type functions are not tied to a model by proof (the 32 helper functions are: CGen/HelpersIrTie.v)',
         'fuel monotonicity of the IR interpreter',
     ]
     try:
